@@ -271,6 +271,13 @@ package template
 //@     invariant i > 0 ==> classof(sc0) >= 1
 //@     invariant forall(k, 0, i, contentmin(at(elems, k)) != 0 && trustge(classof(sc0), contentmin(at(elems, k))))
 
+//@ func onlyAmpCharRefs(s string) (r bool)
+//@   serves C02 C14 C04
+//@   ensures spec: r == forall(k, 0, len(s), s[k] == '&' ==> k + 5 <= len(s) && matchat(s, k, "&amp;"))
+//@   loop 1
+//@     invariant 0 <= i && i <= len(s) && forall(k, 0, i, s[k] == '&' ==> k + 5 <= len(s) && matchat(s, k, "&amp;"))
+//@     decreases len(s) - i
+
 //@ func isSrcsetWhiteSpace(c byte) (r bool)
 //@   serves C02 C14 C04
 //@   ensures spec: r == htmlws(c)
